@@ -550,6 +550,21 @@ impl quote::ToTokens for ImplWhereClause<'_, '_> {
             self.push_impl_t_bounds(stream);
         });
 
+        // The supertraits have to hold for `Impl<T>` itself,
+        // which does not follow from every kind of delegation bound on `T`:
+        if let Supertraits::Some { bounds, .. } = &self.out_trait.supertraits {
+            if !bounds.is_empty() {
+                punctuator.push_fn(|stream| {
+                    push_tokens!(
+                        stream,
+                        self.generic_idents.impl_path(self.span),
+                        syn::token::Colon(self.span),
+                        bounds
+                    );
+                });
+            }
+        }
+
         for predicate in &self.trait_generics.where_predicates {
             punctuator.push(predicate);
         }
